@@ -425,9 +425,16 @@ fn cmd_run(args: &[String]) -> i32 {
             unreproduced.push(format!("run {} ({}): minimised spec does not reproduce", run, class));
             continue;
         };
-        reported += 1;
         let planned: usize = spec.ops.iter().map(|o| o.calls.len()).sum::<usize>() + spec.tasks.iter().map(|t| t.ops.iter().map(|o| o.calls.len()).sum::<usize>()).sum::<usize>();
         let path = write_run_replay(&small, class, &v.detail, seed, *run, &format!("minimised from {} op(s) / {} call(s) in {} executions", spec.ops.len() + spec.tasks.iter().map(|t| t.ops.len()).sum::<usize>(), planned, sh.execs));
+        // a report must replay in a FRESH process (this one may carry state that earlier runs left in the code under test)
+        let fresh = std::process::Command::new(std::env::current_exe().expect("current_exe")).args(["replay", &path]).output();
+        if !matches!(&fresh, Ok(o) if o.status.code() == Some(1)) {
+            let _ = std::fs::remove_file(&path);
+            unreproduced.push(format!("run {} ({}): fails when re-executed inside the exploring process but not in a fresh process", run, class));
+            continue;
+        }
+        reported += 1;
         violations.push(J::obj().set("class", J::s(class)).set("type", J::s(&small.ty)).set("detail", J::s(&v.detail)).set("replay", J::s(&path)).set("build", J::s(BUILD)).set("kind", J::s("run")));
     }
     // Failures of interleaved-tasks runs that come and go: the state that made them fail was left behind by EARLIER runs
@@ -548,6 +555,7 @@ fn cmd_run(args: &[String]) -> i32 {
             all.push((job, o));
         }
         let mut seen_sweep = BTreeSet::new();
+        let mut sweeps_not_fresh = 0u64;
         // a violation found after a fault preamble carries its history in the replay file: report those first
         all.sort_by_key(|(job, o)| if o.violation.is_some() && job.preamble != 0 { 0 } else { 1 });
         sweeps_after_faults = all.iter().filter(|(j, _)| j.preamble != 0).count() as u64;
@@ -562,12 +570,28 @@ fn cmd_run(args: &[String]) -> i32 {
                 inapplicable.push(format!("{} {}: {}", job.ty, job.entry.name(), r));
             }
             if let Some(v) = &o.violation {
-                if seen_sweep.insert((v.class, job.ty.clone(), job.entry)) && seen_sweep.len() <= 6 {
+                if seen_sweep.len() < 6 && sweeps_not_fresh < 60 && !seen_sweep.contains(&(v.class, job.ty.clone(), job.entry)) {
                     let path = write_sweep_replay(job, v.class, &v.detail);
+                    if o.wbits <= 24 {
+                        // must replay in a fresh process (state left in the code under test by earlier sweeps or runs)
+                        let fresh = std::process::Command::new(std::env::current_exe().expect("current_exe")).args(["replay", &path]).output();
+                        if !matches!(&fresh, Ok(o) if o.status.code() == Some(1)) {
+                            let _ = std::fs::remove_file(&path);
+                            sweeps_not_fresh += 1;
+                            continue;
+                        }
+                    }
+                    seen_sweep.insert((v.class, job.ty.clone(), job.entry));
                     violations.push(J::obj().set("class", J::s(v.class)).set("type", J::s(&job.ty)).set("detail", J::s(&format!("{} on [{}, {}]{}: {}", job.entry.name(), json::hex(&job.low), json::hex(&job.high_incl), ["", " after one call on the same bounds in which the RNG panicked on the first draw", " after one call on the same bounds in which the RNG reported an error on the first draw", " after one call on the same bounds in which the RNG delivered an all-ones word and panicked on the next draw", " after one call on the same bounds in which the RNG delivered a zero word and panicked on the next draw"][(job.preamble as usize).min(4)], v.detail))).set("replay", J::s(&path)).set("build", J::s(BUILD)).set("kind", J::s("sweep")));
                 }
             } else if sweep_samples.len() < 6 && (o.rejected > 0 || sweep_samples.len() < 2) && o.wbits >= 16 {
                 sweep_samples.push(job.to_json().set("words", J::Int(o.words as i128)).set("accepted", J::Int(o.accepted as i128)).set("rejected", J::Int(o.rejected as i128)).set("equal_fibre_size", J::Int(o.fibre as i128)));
+            }
+        }
+        if sweeps_not_fresh > 0 {
+            unreproduced.push(format!("{} sweep violation(s) did not reproduce in a fresh process", sweeps_not_fresh));
+            if violations.is_empty() {
+                harness_errors.push(format!("{} sweep(s) failed inside the exploring process but none reproduces in a fresh process", sweeps_not_fresh));
             }
         }
         if !inapplicable.is_empty() && inapplicable.len() == all.len() {
